@@ -407,9 +407,11 @@ pub fn process<I: BufRead, O: Write>(
                             insert_it = false;
                         }
                         match s.next() {
-                            Some(string) => {
+                            Some(_) => {
+                                // The comment body is what follows "/*" in the line itself,
+                                // not in the text cut at the first "//"
                                 in_multiline_comments = true;
-                                remaining = string;
+                                remaining = &remaining[s2.len() + 2..];
                             }
                             _ => break,
                         }
@@ -420,9 +422,9 @@ pub fn process<I: BufRead, O: Write>(
                         insert_it = false;
                     }
                     match s.next() {
-                        Some(string) => {
+                        Some(_) => {
                             in_multiline_comments = true;
-                            remaining = string;
+                            remaining = &remaining[s2.len() + 2..];
                         }
                         _ => break,
                     }
